@@ -17,19 +17,29 @@ Inductive rkind :=
 | RRetry (d : decision) (* read/write timeout, unavailable, overloaded, bootstrapping, truncate, server error,
                            ConnectionException, ConnectionShutdown: the retry policy is consulted and answers d *)
 | ROther                (* any other ErrorMessage / Exception: becomes the final exception *)
+| RUnprepared           (* PreparedQueryNotFound for a statement the driver knows: _reprepare is handed to the executor *)
 | RSchema               (* ResultMessage kind SCHEMA_CHANGE: refresh_schema_and_set_result is handed to the executor *)
 | RSetKs                (* ResultMessage kind SET_KEYSPACE (answer to USE): Session._set_keyspace_for_all_pools is started *)
 | RJunk.                (* a message that is neither a result nor an error *)
+(* what a PREPARE sent by _reprepare is answered with (handled by _execute_after_prepare) *)
+Inductive pkind := PPrepared | PMismatch (* PREPARED with another query id *) | PError (* ErrorMessage *)
+                 | PConnErr (* ConnectionException *) | PJunk (* anything else *).
+(* work handed to session.submit *)
+Inductive task :=
+| TRetry (reuse : bool) (h : Z)            (* _retry_task(reuse_connection, host) *)
+| TReprepare (h : Z)                       (* _reprepare(prepare_message, host, ...) *)
+| TAfterPrepare (h : Z) (a : nat) (pk : pkind).   (* _execute_after_prepare(host, connection, pool, answer of attempt a) *)
 Inductive tkind := TSpec | TTimeout (n : nat).   (* _on_speculative_execute | _on_timeout(_attempts = n) *)
 Record timer := mkTimer { tk : tkind; due : Z; cancelled : bool; fired : bool }.
-Record attempt := mkAtt { ahost : Z; aopen : bool; astale : bool }.
+Record attempt := mkAtt { ahost : Z; aopen : bool; astale : bool; aprep : bool }.
 (* aopen: the callback is still registered in connection._requests; astale: sent for an earlier page fetch (its page number
-   differs from self._page_no), so _set_result_of_page drops its answer *)
+   differs from self._page_no), so _set_result_of_page drops its answer;
+   aprep: a PREPARE sent by _reprepare (its answer goes to _execute_after_prepare, whatever the page) *)
 Record pair := mkPair { cbs : list Z; ebs : list Z }.  (* values the callback / the errback was invoked with *)
 
 (* outcome values: results 1 = None (VOID / IGNORE), 10 + a = the rows answered to attempt a;
    errors 1 = OperationTimedOut, 2 = OperationTimedOut("Connection defunct by heartbeat"), 3 = NoHostAvailable,
-   4 = ConnectionException("Failed to set keyspace on all hosts"), 5 = ConnectionShutdown("Session is shut down ..."), 10 + a = the error answered to attempt a *)
+   4 = ConnectionException("Failed to set keyspace on all hosts"), 5 = ConnectionShutdown("Session is shut down ..."), 6 = DriverException("ID mismatch while trying to reprepare"), 10 + a = the error answered to attempt a *)
 
 Record state := mkState {
   plan : list Z;   (* remaining query plan (the iterator self.query_plan) *)
@@ -50,7 +60,7 @@ Record state := mkState {
   pstart : Z;   (* ghost: time at which the current page fetch started *)
   timeout : option Z;   (* self.timeout (ms) *)
   now : Z;   (* virtual clock (ms) *)
-  queue : list (bool * Z);   (* tasks handed to session.submit: _retry_task(reuse_connection, host) *)
+  queue : list task;   (* tasks handed to session.submit and not yet run *)
   pools : list (Z * pstate);   (* environment: state of session._pools per host *)
   started : bool;   (* ghost: the initial send_request() happened *)
   tfired : bool;   (* ghost: _on_timeout ran past its reschedule branch in this page fetch *)
@@ -96,7 +106,7 @@ Definition set_timeout (x : option Z) (s : state) : state :=
   mkState (plan s) (attempts s) (cur_host s) (cur_conn s) (cur_req s) (retries s) (timers s) (cur_timer s) (specs s) (fres s) (fexc s) (event s) (pairs s) (paging s) (start s) (pstart s) x (now s) (queue s) (pools s) (started s) (tfired s) (results s) (chains s) (swallowed s) (shut s) (refreshes s).
 Definition set_now (x : Z) (s : state) : state :=
   mkState (plan s) (attempts s) (cur_host s) (cur_conn s) (cur_req s) (retries s) (timers s) (cur_timer s) (specs s) (fres s) (fexc s) (event s) (pairs s) (paging s) (start s) (pstart s) (timeout s) x (queue s) (pools s) (started s) (tfired s) (results s) (chains s) (swallowed s) (shut s) (refreshes s).
-Definition set_queue (x : list (bool * Z)) (s : state) : state :=
+Definition set_queue (x : list task) (s : state) : state :=
   mkState (plan s) (attempts s) (cur_host s) (cur_conn s) (cur_req s) (retries s) (timers s) (cur_timer s) (specs s) (fres s) (fexc s) (event s) (pairs s) (paging s) (start s) (pstart s) (timeout s) (now s) x (pools s) (started s) (tfired s) (results s) (chains s) (swallowed s) (shut s) (refreshes s).
 Definition set_pools (x : list (Z * pstate)) (s : state) : state :=
   mkState (plan s) (attempts s) (cur_host s) (cur_conn s) (cur_req s) (retries s) (timers s) (cur_timer s) (specs s) (fres s) (fexc s) (event s) (pairs s) (paging s) (start s) (pstart s) (timeout s) (now s) (queue s) x (started s) (tfired s) (results s) (chains s) (swallowed s) (shut s) (refreshes s).
